@@ -15,6 +15,7 @@
   ONLY property theorems and their non-vacuity examples live here.
 -/
 import DuckModel.Lemmas.ReserializeLemmas
+import DuckModel.Props.C09Translated
 
 namespace Duck
 open Duck.Reser Duck.Spec
